@@ -26,7 +26,7 @@ type timingCase struct {
 func replayTiming(in, out string, shard, of int) {
 	rep := hx.NewReport("chain-claims", "replay-timing")
 	groups := map[[2]int64][]timingCase{}
-	modelOnly := 0
+	modelOnly, others := 0, 0
 	err := hx.ReadBehaviours(in, func(idx int, beh []hx.Step) error {
 		for _, c := range beh {
 			B, W := int64(c.Int("B")), int64(c.Int("W"))
@@ -93,12 +93,22 @@ func replayTiming(in, out string, shard, of int) {
 				accepted := res.Code == 0
 				rep.OpCounts[fmt.Sprintf("claim accepted=%v known=%v", accepted, pd.have)]++
 				if accepted != tc.c.Bool("accepted") {
-					rep.AddMismatch(hx.Mismatch{Behaviour: tc.idx, Op: "claim", What: fmt.Sprintf("claim for session %d at height %d (B=%d W=%d): accepted", S, ch, k[0], k[1]),
-						Want: tc.c.Bool("accepted"), Got: classOf(res), History: []hx.Step{tc.c}})
+					// C31 is contradicted only by an ACCEPTED claim whose selecting block is already
+					// committed; other disagreements (start of the window) are C32's and only counted
+					if accepted && pd.have {
+						rep.AddMismatch(hx.Mismatch{Behaviour: tc.idx, Op: "claim", What: fmt.Sprintf("claim for session %d accepted at height %d (B=%d W=%d) although block %d, whose hash selects the leaf, is already committed",
+							S, ch, k[0], k[1], tc.c.Int("entropyH")), Want: tc.c.Bool("accepted"), Got: classOf(res), History: []hx.Step{tc.c}})
+					} else {
+						others++
+					}
 					continue
 				}
 				if accepted {
 					rep.Nontrivial++
+				}
+				if accepted && pd.have && (pd.pred < 0 || pd.pred >= 5) {
+					rep.AddMismatch(hx.Mismatch{Behaviour: tc.idx, Op: "index", What: "selected leaf index outside the claimed relay count", Want: "0..4", Got: pd.pred, History: []hx.Step{tc.c}})
+					continue
 				}
 				if accepted && pd.have {
 					// the selecting block was committed before this claim was authored
@@ -120,6 +130,7 @@ func replayTiming(in, out string, shard, of int) {
 	}
 	rep.Distinct = rep.Behaviours
 	rep.Extra["model_only_cases"] = modelOnly
+	rep.Extra["other_disagreements"] = others
 	rep.Extra["chains"] = len(keys)
 	rep.Extra["boundary"] = confirmations
 	rep.Print()
